@@ -109,6 +109,16 @@ func solveQuery(q *Query, timeoutS int, thorough bool, vacuity bool) {
 		total += ms
 		if r == "unsat" {
 			q.Result, q.Out, q.Ms, q.Solver = r, out, total, s.name
+			if thorough && i+1 < len(solvers) {
+				// thorough tier: an independent second opinion; a definite `sat` from another solver on the
+				// same query would mean one of the two is wrong — the check is then broken, not passed
+				r2, out2, ms2 := runSolver(solvers[i+1], q.SMT, t)
+				q.Ms += ms2
+				q.Recheck = solvers[i+1].name + ":" + r2
+				if r2 == "sat" && !hasQuantifier(q.SMT) {
+					q.Result, q.Out = "error", "solvers disagree: "+s.name+" unsat, "+solvers[i+1].name+" sat\n"+out2
+				}
+			}
 			return
 		}
 		if r == "error" {
